@@ -273,8 +273,10 @@ def C_find_gates(repo, clause):
     # distance gate through a flag or directly
     flag = None
     for t, pol, k in gs:
-        if pol and isinstance(t, ast.Name):
-            flag = t.id
+        if pol and isinstance(t, ast.Name) and any(
+                isinstance(n_, ast.Assign) and any(isinstance(tg_, ast.Name) and tg_.id == t.id for tg_ in n_.targets) and isinstance(const_value(n_.value), bool)
+                for n_ in fn.own_nodes()):
+            flag = t.id      # a boolean flag (assigned True / False somewhere), not the truth value of a list that guards the round
     closeness = [c for c in calls_in(fn) if call_name(c) == "isclose" and pos_loop in list(fn.ancestors(c))]
     if len(closeness) != 1:
         raise AnalysisError("C01: distance comparison (isclose) not found uniquely in the extension loop")
@@ -400,10 +402,23 @@ def C_unchanged_pairs(repo, clause):
             if isinstance(sq, ast.BinOp) and ((isinstance(sq.op, ast.Pow) and const_value(sq.right) == 2) or (isinstance(sq.op, ast.Mult) and nf(sq.left) == nf(sq.right))):
                 return True
         return False
+    def _positive_parts(t, pol):
+        """the comparisons that HOLD when guard t is taken with polarity pol (conjunctions split; a negated comparison / disjunction turned around)"""
+        if pol:
+            if isinstance(t, ast.BoolOp) and isinstance(t.op, ast.And):
+                return [q for v in t.values for q in _positive_parts(v, True)]
+            return [t]
+        if isinstance(t, ast.BoolOp) and isinstance(t.op, ast.Or):
+            return [q for v in t.values for q in _positive_parts(v, False)]
+        if isinstance(t, ast.Compare) and len(t.ops) == 1:
+            neg = {ast.Eq: ast.NotEq, ast.NotEq: ast.Eq, ast.Lt: ast.GtE, ast.LtE: ast.Gt, ast.Gt: ast.LtE, ast.GtE: ast.Lt}.get(type(t.ops[0]))
+            if neg is not None and not isinstance(t.ops[0], (ast.Lt, ast.LtE, ast.Gt, ast.GtE)):
+                return [ast.copy_location(ast.Compare(left=t.left, ops=[neg()], comparators=t.comparators), t)]
+            # an ordered comparison is NOT negated by flipping the operator when NaN may occur; `not (d < tol)` taken negatively is `d < tol` again
+        return []
     for t, pol, k in gs:
-        if not pol:
-            continue
-        parts = t.values if isinstance(t, ast.BoolOp) and isinstance(t.op, ast.And) else [t]
+        # `if not d < tol: continue` arrives as (d < tol, True) after normalisation; `if a != b: continue` as (a != b, False)
+        parts = _positive_parts(t, pol)
         for p in parts:
             if isinstance(p, ast.Compare) and len(p.ops) == 1:
                 pl = expand(fn, p.left)
@@ -926,11 +941,14 @@ def C_axis_windows(repo, clause, only_images=False):
     if len(stores) == 2:
         s1, s2 = sorted(stores, key=lambda n: n.lineno)
         sl1 = ast.unparse(expand(win, s1.targets[0].slice))
-        z1 = "np.where" in sl1 and "(0, 0, 0)" in sl1 and isinstance(s1.value, ast.Subscript) and const_value(s1.value.slice) == 0
+        # index of the all-zero row: np.where(np.all(offsets == (0,0,0), axis=1))[0][0] / np.flatnonzero(...)[0] / np.nonzero(...)[0][0] / np.argmax(np.all(...))
+        finds_zero_row = any(k_ in sl1 for k_ in ("np.where", "np.flatnonzero", "np.nonzero", "np.argmax")) and "(0, 0, 0)" in sl1 and "all(" in sl1
+        z1 = finds_zero_row and isinstance(s1.value, ast.Subscript) and const_value(s1.value.slice) == 0
         z2 = const_value(s2.targets[0].slice) == 0 and isinstance(s2.value, (ast.Tuple, ast.List)) and all(const_value(x) == 0 for x in s2.value.elts)
         ok = z1 and z2 and win.cfg.dominates(s1, s2)
     obs.append(Ob("Caxis", clause, win, stores[0] if stores else win.node, ok,
-                  "the zero offset is swapped to index 0 (old first offset moved to the zero slot first, then slot 0 zeroed): the home cell is image block 0", slot="home-cell-first"))
+                  "the zero offset is swapped to index 0 (old first offset moved to the zero slot first, then slot 0 zeroed): the home cell is image block 0", slot="home-cell-first",
+                  undecided=len(stores) == 2 and not ok and not ("(0, 0, 0)" in sl1)))
     # image-major layout
     ap = [n for n in win.own_nodes() if isinstance(n, ast.Assign) and isinstance(n.value, ast.ListComp) and "positions" in ast.unparse(n.value.elt)
           and isinstance(n.value.elt, ast.BinOp)]
@@ -1137,8 +1155,10 @@ def C_taint_absolute_coords(repo, clause):
                           ("absolute coordinates (derived from structure.positions) reach a %s outside the shift-covariant windows: the result can depend on where the structure sits in the cell" % kind),
                           slot="%s:%s" % (k, re.sub(r"\s+", " ", ast.unparse(node))[:70])))
     floor("Ctaint", "comparison sinks reached by absolute coordinates", total, 8)
+    lost = len(ret_taint) == 4 and not ret_taint[0] and not ret_taint[3]      # the positions themselves are not seen as coordinates: the taint tracking lost them
     obs.append(Ob("Ctaint", clause, win, rets[0], ret_taint == [True, False, False, True],
-                  "of the four image lists only the positions carry absolute coordinates (types and indices do not): %s" % ret_taint, slot="return-taint"))
+                  "of the four image lists only the positions carry absolute coordinates (types and indices do not): %s" % ret_taint, slot="return-taint",
+                  positive=len(ret_taint) == 4 and not lost and (ret_taint[1] or ret_taint[2]), undecided=lost))
     return obs
 
 
